@@ -217,4 +217,45 @@ Section WithIp.
     end.
 
   Definition init_state (now : Z) : cp_state := {| s_now := now; s_dns := []; s_real := []; s_neg := [] |}.
+
+  (* ---- vocabulary of the history theorem: the events a run produces, and what is required of a call ---- *)
+  Definition probe_events (name : str) (now : Z) (asked : bool) (ans : probe_answer) : list event :=
+    if asked then
+      match ans with
+      | PFound => [EvVerified name now true]
+      | PNoRecord => [EvVerified name now false]
+      | PFail => []
+      end
+    else [].
+
+  Definition step_ok (mode : dial_mode) (evs : list event) (now : Z) (outbound : N) (dst : dest)
+             (domain key : str) (o : outcome) : Prop :=
+    let k := knowledge_now neg_ttl evs key domain now in
+    let c := classify is_ip domain in
+    let r := is_reserved outbound in
+    o_use_name o = spec_use_name is_ip mode r c k /\
+    o_reroute o = spec_reroute is_ip mode r c k /\
+    (dest_wf dst = true -> literal_clean c = true -> endpoint_constrained is_ip mode r c k = true ->
+     denotes (o_target o) (spec_endpoint is_ip mode r (d_ip dst) (d_port dst) c k) = true).
+
+  (* every ChooseDialTarget call of a history decides as the table says, with the knowledge the past
+     events give *)
+  Definition op_events (o : op) (now : Z) (r : option (outcome * bool)) : list event :=
+    match o, r with
+    | OpRemember key e, _ => [EvResolved key e]
+    | OpChoose _ _ dom _ _ _ ans, Some (_, asked) => probe_events dom now asked ans
+    | _, _ => []
+    end.
+
+  Fixpoint history_ok (mode : dial_mode) (st : cp_state) (evs : list event) (h : list op) : Prop :=
+    match h with
+    | [] => True
+    | o :: h' =>
+        let '(r, st') := step mode st o in
+        match o, r with
+        | OpChoose ob dst dom ka k6 _ _, Some (oc, _) =>
+            step_ok mode evs (s_now st) ob dst dom (if d_is4 dst then ka else k6) oc
+        | _, _ => True
+        end /\ history_ok mode st' (evs ++ op_events o (s_now st) r) h'
+    end.
 End WithIp.
